@@ -146,6 +146,65 @@ fn borrowed(g: &mut Gen, st: &mut Stats) -> CaseResult {
     Ok(())
 }
 
+/// A zero-copy byte buffer: serialises through serialize_bytes and can only be deserialised by *borrowing* from the input.
+#[derive(Debug, PartialEq, Clone, Copy)]
+struct BB<'a>(&'a [u8]);
+impl Serialize for BB<'_> { fn serialize<S: serde::Serializer>(&self, s: S) -> Result<S::Ok, S::Error> { s.serialize_bytes(self.0) } }
+impl<'de: 'a, 'a> Deserialize<'de> for BB<'a> {
+    fn deserialize<D: serde::Deserializer<'de>>(d: D) -> Result<Self, D::Error> {
+        struct V;
+        impl<'de> serde::de::Visitor<'de> for V {
+            type Value = BB<'de>;
+            fn expecting(&self, f: &mut std::fmt::Formatter) -> std::fmt::Result { f.write_str("borrowed bytes") }
+            fn visit_borrowed_bytes<E: serde::de::Error>(self, v: &'de [u8]) -> Result<BB<'de>, E> { Ok(BB(v)) }
+        }
+        d.deserialize_bytes(V)
+    }
+}
+
+/// Borrowed `&str` / byte buffers inside the shapes serde buffers through `deserialize_any` (untagged, internally tagged,
+/// flatten) and in a plain struct: the value round-trips and the slices point into the input.
+fn borrowed_buffered(g: &mut Gen, st: &mut Stats) -> CaseResult {
+    #[derive(Debug, PartialEq, Serialize, Deserialize)] struct P<'a> { #[serde(borrow)] b: BB<'a>, #[serde(borrow)] s: &'a str, n: u8 }
+    #[derive(Debug, PartialEq, Serialize, Deserialize)] #[serde(untagged)] enum U<'a> { #[serde(borrow)] B(BB<'a>), N(u8), #[serde(borrow)] S(&'a str) }
+    #[derive(Debug, PartialEq, Serialize, Deserialize)] #[serde(tag = "t")] enum I<'a> { A { #[serde(borrow)] b: BB<'a>, #[serde(borrow)] s: &'a str }, Z }
+    #[derive(Debug, PartialEq, Serialize, Deserialize)] struct In<'a> { #[serde(borrow)] b: BB<'a>, #[serde(borrow)] s: &'a str }
+    #[derive(Debug, PartialEq, Serialize, Deserialize)] struct F<'a> { id: u8, #[serde(borrow, flatten)] inner: In<'a> }
+    st.eval();
+    let sv = g.string(20);
+    let bv = g.bytes(20);
+    let (s, b) = (sv.as_str(), BB(&bv));
+    fn inside(p: *const u8, n: usize, enc: &[u8]) -> bool { n == 0 || ((p as usize) >= enc.as_ptr() as usize && (p as usize) + n <= enc.as_ptr() as usize + enc.len()) }
+    macro_rules! rt { ($label:expr, $t:ty, $v:expr, |$x:ident| $ptrs:expr) => {{
+        let v: $t = $v;
+        let enc = minicbor_serde::to_vec(&v).map_err(|e| vcore::Fail::new("serialize-failed", format!("{}: {}", $label, e)))?;
+        let (r, pos) = from_slice_pos::<$t>(&enc);
+        match r {
+            Ok($x) => {
+                ensure!($x == v, "borrowed-value", "{}: {} deserialised to {:?}, expected {:?}", $label, short_hex(&enc), $x, v);
+                ensure!(pos == enc.len(), "borrowed-position", "{}: consumed {} of {}", $label, pos, enc.len());
+                let ptrs: Vec<(*const u8, usize)> = $ptrs;
+                ensure!(ptrs.iter().all(|(p, n)| inside(*p, *n, &enc)), "not-borrowed", "{}: borrowed fields of {:?} do not point into the input", $label, $x);
+            }
+            Err(e) => fail!("borrowed-rejected", "{}: {:?} serialised as {} but deserialising it as the same (borrowing) type failed: {}", $label, v, short_hex(&enc), e)
+        }
+        st.class($label);
+    }}}
+    scoped("borrowed-buffered", || {
+        match g.below(6) {
+            0 => rt!("borrowed/plain struct", P, P { b, s, n: g.u8() }, |x| vec![(x.b.0.as_ptr(), x.b.0.len()), (x.s.as_ptr(), x.s.len())]),
+            1 => rt!("borrowed/untagged bytes", U, U::B(b), |x| match x { U::B(b) => vec![(b.0.as_ptr(), b.0.len())], _ => vec![] }),
+            2 => rt!("borrowed/untagged str", U, U::S(s), |x| match x { U::S(s) => vec![(s.as_ptr(), s.len())], _ => vec![] }),
+            3 => rt!("borrowed/internally tagged", I, I::A { b, s }, |x| match x { I::A { b, s } => vec![(b.0.as_ptr(), b.0.len()), (s.as_ptr(), s.len())], _ => vec![] }),
+            4 => rt!("borrowed/flatten", F, F { id: g.u8(), inner: In { b, s } }, |x| vec![(x.inner.b.0.as_ptr(), x.inner.b.0.len()), (x.inner.s.as_ptr(), x.inner.s.len())]),
+            _ => rt!("borrowed/Vec of buffers", Vec<BB>, vec![b, BB(&[]), b], |x| x.iter().map(|b| (b.0.as_ptr(), b.0.len())).collect())
+        }
+        Ok(())
+    })?;
+    st.nontrivial(hash_of(&(&sv, &bv)));
+    Ok(())
+}
+
 // ---- C18 -----------------------------------------------------------------------------------------
 
 fn c18<T>(g: &mut Gen, st: &mut Stats, name: &'static str) -> CaseResult
@@ -223,6 +282,58 @@ fn c18_long(g: &mut Gen, st: &mut Stats) -> CaseResult {
     }
 }
 
+// ---- C12 through the bridge ------------------------------------------------------------------------
+
+/// Every float bit pattern (signalling NaNs, payloads, subnormals, signed zeros) through the serde bridge: directly
+/// and in the contexts serde buffers through `deserialize_any`; half-precision items read as f32 / f64; a wider item
+/// is refused by a narrower target.
+fn floats_through_bridge(g: &mut Gen, st: &mut Stats) -> CaseResult {
+    use fam::{F32b, F64b};
+    #[derive(Debug, PartialEq, Serialize, Deserialize)] #[serde(untagged)] enum U32 { I(i64), G(F32b), T(String) }
+    #[derive(Debug, PartialEq, Serialize, Deserialize)] #[serde(untagged)] enum U64 { I(i64), G(F64b), T(String) }
+    #[derive(Debug, PartialEq, Serialize, Deserialize)] #[serde(tag = "t")] enum Int32 { A { x: F32b, y: F64b }, B }
+    #[derive(Debug, PartialEq, Serialize, Deserialize)] struct In { a: F32b, b: F64b }
+    #[derive(Debug, PartialEq, Serialize, Deserialize)] struct Fl { id: u8, #[serde(flatten)] inner: In }
+    st.eval();
+    let special32: [u32; 10] = [0x7f80_0001, 0x7fa0_0000, 0xff92_3456, 0x7fc0_0000, 0xffc0_0001, 0x8000_0000, 0x0000_0001, 0x7f80_0000, 0xff80_0000, 0x007f_ffff];
+    let special64: [u64; 8] = [0x7ff0_0000_0000_0001, 0x7ff4_0000_0000_0000, 0xfff8_0000_0000_0001, 0x8000_0000_0000_0000, 1, 0x7ff0_0000_0000_0000, 0x000f_ffff_ffff_ffff, 0x7ff8_0000_0000_0000];
+    let a = F32b(f32::from_bits(if g.chance(100) { *g.pick(&special32) } else { g.f32_bits() }));
+    let b = F64b(f64::from_bits(if g.chance(100) { *g.pick(&special64) } else { g.f64_bits() }));
+    fn rt<T: Serialize + DeserializeOwned + PartialEq + Debug>(what: &str, v: &T) -> CaseResult {
+        let bytes = minicbor_serde::to_vec(v).map_err(|e| vcore::Fail::new("serialize-failed", format!("{}: {:?}: {}", what, v, e)))?;
+        match minicbor_serde::from_slice::<T>(&bytes) {
+            Ok(back) => ensure!(&back == v, "float-bits", "{}: {:?} serialised as {} came back as {:?} (bit patterns differ)", what, v, short_hex(&bytes), back),
+            Err(e) => fail!("float-rejected", "{}: {:?} serialised as {} was rejected: {}", what, v, short_hex(&bytes), e)
+        }
+        Ok(())
+    }
+    scoped("bridge-floats", || {
+        rt("f32", &a)?; rt("f64", &b)?;
+        rt("untagged f32", &U32::G(a))?; rt("untagged f64", &U64::G(b))?;
+        rt("internally tagged", &Int32::A { x: a, y: b })?;
+        rt("flattened", &Fl { id: g.u8(), inner: In { a, b } })?;
+        rt("Vec<f32>", &vec![a, a])?; rt("Option<f64>", &Some(b))?;
+        // the wire width is the width of the Rust type
+        let e32 = minicbor_serde::to_vec(&a).unwrap(); let e64 = minicbor_serde::to_vec(&b).unwrap();
+        ensure!(e32.len() == 5 && e32[0] == 0xfa && e32[1 ..] == a.0.to_bits().to_be_bytes(), "float-width", "f32 {:08x} serialised as {}", a.0.to_bits(), short_hex(&e32));
+        ensure!(e64.len() == 9 && e64[0] == 0xfb && e64[1 ..] == b.0.to_bits().to_be_bytes(), "float-width", "f64 {:016x} serialised as {}", b.0.to_bits(), short_hex(&e64));
+        // a wider item is never accepted by a narrower target; a narrower one widens exactly
+        ensure!(minicbor_serde::from_slice::<f32>(&e64).is_err(), "wider-accepted", "the f64 item {} was accepted as f32", short_hex(&e64));
+        if !a.0.is_nan() { match minicbor_serde::from_slice::<f64>(&e32) { Ok(x) => ensure!(x.to_bits() == (a.0 as f64).to_bits(), "widening", "f32 item {} read as f64 gave {:e}", short_hex(&e32), x), Err(e) => fail!("widening", "f32 item {} refused as f64: {}", short_hex(&e32), e) } }
+        // half-precision items
+        let h = g.f16_bits();
+        let item = [0xf9, (h >> 8) as u8, h as u8];
+        let want = vcore::half_ref::f16_bits_to_f64(h);
+        for (name, got) in [("f32", minicbor_serde::from_slice::<f32>(&item).map(|x| x as f64)), ("f64", minicbor_serde::from_slice::<f64>(&item))] {
+            match got { Ok(x) => ensure!(if want.is_nan() { x.is_nan() } else { x.to_bits() == want.to_bits() }, "half-value", "the half item f9{:04x} read as {} gave {:e}, it denotes {:e}", h, name, x, want), Err(e) => fail!("half-rejected", "the half item f9{:04x} was refused as {}: {}", h, name, e) }
+        }
+        Ok(())
+    })?;
+    st.class(if a.0.is_nan() || b.0.is_nan() { "bridge-floats/with NaN" } else { "bridge-floats/numeric" });
+    st.nontrivial(hash_of(&(a.0.to_bits(), b.0.to_bits())));
+    Ok(())
+}
+
 fn subs() -> Vec<Sub> {
     vec![
         Sub { prop: "C17", name: "family", rule: "value of one of 48 serde types (all primitives <= 64 bit, char, strings, serialize_bytes buffers, options, unit, unit/newtype/tuple/named structs, seqs, tuples, arrays, maps, externally/internally/adjacently/un-tagged enums, flatten, skip_serializing_if, renames, unknown-length seq/map, 25-field struct): bytes == independent model serializer (documented representation) and one well-formed item; from_slice == value with exact consumption (junk follows); wider heads -> same value; indefinite containers / chunked strings -> same value or error; unknown extra struct entry ignored; distinct by (type, bytes)",
@@ -231,6 +342,10 @@ fn subs() -> Vec<Sub> {
               kind: Kind::Random { quick: 150_000, thorough: 600_000, tape: 128, f: adjacent_sub } },
         Sub { prop: "C17", name: "borrowed", rule: "&str and &[u8] fields deserialise from text / byte strings as slices of the input",
               kind: Kind::Random { quick: 100_000, thorough: 400_000, tape: 256, f: borrowed } },
+        Sub { prop: "C17", name: "borrowed-buffered", rule: "zero-copy byte buffers (deserialisable only through visit_borrowed_bytes) and &str inside a plain struct, untagged and internally tagged enums, a flattened struct and a Vec: round trip, exact consumption, slices point into the input",
+              kind: Kind::Random { quick: 150_000, thorough: 1_000_000, tape: 256, f: borrowed_buffered } },
+        Sub { prop: "C12S", name: "bridge-floats", rule: "f32 / f64 bit patterns (boundary-dense, signalling NaNs and payloads included) through the serde bridge - top level, Vec, Option and the contexts serde buffers through deserialize_any (untagged, internally tagged, flatten): identical bit pattern back, wire width = width of the Rust type, f64 item refused by an f32 target, f32 item widens exactly, every half item read as f32 / f64 equals the reference value",
+              kind: Kind::Random { quick: 300_000, thorough: 3_000_000, tape: 128, f: floats_through_bridge } },
         Sub { prop: "C18", name: "long-documents", rule: "sequences / maps / nested sequences of 130-2500 elements (many None, unit, tuple and array elements) in the shared model: the same oracle as shared-model; cumulative effects (depth or element counters, budgets) need this many elements to show",
               kind: Kind::Random { quick: 3_000, thorough: 60_000, tape: 16384, f: c18_long } },
         Sub { prop: "C18", name: "shared-model", rule: "value of one of 52 types in the data model shared by both codecs: minicbor::to_vec == minicbor_serde::to_vec; each side's bytes decode through the other side to the value; re-framed encodings (wider heads: both must accept; indefinite containers / chunked strings) never yield two different values or a value different from the model's; distinct by (type, bytes)",
